@@ -73,13 +73,13 @@ CLAIMED["C04"] = ("other", "Mixed: (proof) leaf translation: _from_pkg_specifier
                   "5 C04", "A-VER, A-PKG-PARSE, A-PKG-CONTAINS (bounded); C01/C05/C06 contracts; finding D3 (contains() goes through the ~= rendering)",
                   "contract-based deductive verification of the leaf translation (T-VER) + bounded comparison with packaging")
 CLAIMED["C07"] = ("other", "Mixed: (proof) MultiMarker.__str__ / MarkerUnion.__str__ produce a join whose operands parse at the right precedence (no unparenthesised or-join or <empty>/'' token inside an and-join) and mean the children, "
-                  "for all compounds in normal form; an atom rendered by MarkerExpression.__str__ and read back (packaging's triple, then the real _build_markers) is the same atom, for the ten operators and both operand orders; "
+                  "for all compounds in normal form; an atom rendered by MarkerExpression.__str__ and read back (packaging's triple, then the real _build_markers) is the same atom, for the ten operators and both operand orders, and the quote character around the literal does not occur in it (SMT strings); the premises C02 (operator laws) and C03 (parser) are re-established on every run; "
                   "(bounded) str() of every parse/&/|/only/exclude result of the marker sweep is re-parsed by parse_marker and packaging.Marker and re-evaluated on the environment grid; "
-                  "<empty>/'' round trip and absence of <empty> inside larger markers checked there.", "5 C07", "A-PKG-PARSE (precedence); str() contract of children assumed recursively; atom renderings bounded; D14 finding",
+                  "<empty>/'' round trip and absence of <empty> inside larger markers checked there.", "5 C07", "A-PKG-PARSE (precedence); str() contract of children assumed recursively; group renderings bounded; D14 finding",
                   "contract-based verification of the parenthesisation (document algebra, invariants, z3) + bounded round trip")
 CLAIMED["C10"] = ("other", "Mixed: (frame analysis, decided statically on every run) every memoised function found in the source reads, through its key parameters, only state that ==/hash compare, and the key objects it returns "
                   "carry no uncompared field that str()/evaluate read (calls of module-level functions, local aliases and dataclasses.replace copies followed; the lazily filled view of an atom may only be read inside its accessor), "
-                  "and the one place that installs that view from outside, from_specifier, installs it only when it is spelled as the atom's own text - with the memoisation meta-lemma this gives independence from history; (bounded) cold-vs-warm differential of probe operations after generated histories, "
+                  "the lazy view is set only by its accessor and by from_specifier (every assignment site is found by an AST scan), and from_specifier installs no view that differs from the one the atom's own text gives (none at all for version specifiers; for a GenericSpecifier the very (op, value) pair); the receiver of a memoised method counts as a key - with the memoisation meta-lemma this gives independence from history; (bounded) cold-vs-warm differential of probe operations after generated histories, "
                   "including operands/results that are equal as keys but built or spelled differently.", "5 C10", "meta-lemma (stated, trusted); annotations used for method resolution; whitelisted lazy cache _specifier",
                   "frame-condition (read-set) obligations from the AST + bounded cold/warm differential")
 CLAIMED["C15"] = ("other", "Mixed: (proof) the atom-layer operators - EqualityMarkerUnion / InequalityMultiMarker replace/&/|, _merge_single_markers and MarkerExpression &/| on string atoms - never return an atom group with fewer "
@@ -101,9 +101,9 @@ CLAIMED["C11"] = ("other", "Mixed: (proof, structured versions) MarkerExpression
                   "from_specifier of simple specifiers re-evaluated on the grid.", "5 C11", "A-VER, A-PKG-PARSE; PEP 440 clause meaning on release-only versions written out in contracts/pyversion.py; _evaluate on versions (A-PKG-CONTAINS) and in/not in bounded only; finding D14",
                   "contract-based deductive verification of from_specifier (T-VER, z3 with deterministic instantiation) + bounded bridge sweep")
 CLAIMED["C03"] = ("other", "Mixed: (proof) _build_markers, the rewriting done while parsing: the marker built from packaging's parse tree evaluates as packaging's own fold of that tree (or of and-groups, nested lists recursively) "
-                  "for all trees, given atoms that evaluate alike, and every parsed triple becomes an atom with the same variable, literal and operand order, its operator mirrored exactly when the literal is on the left; "
+                  "for all trees, given atoms that evaluate alike, and every parsed triple becomes an atom with the same variable, literal and operand order, its operator mirrored exactly when the literal is on the left; MarkerExpression._evaluate applies, like packaging's _eval_op, the written operator to the operands in the written order - by Specifier(op + rhs).contains(lhs) for the four version variables (eight operators, both operand orders), as plain strings for every other variable whatever the literal; "
                   "(bounded) parse_marker(text).evaluate(env) against packaging.Marker(text).evaluate(env) for every text over the well-defined atom pool (both operand orders, nested and/or) on the environment grid, "
-                  "name-normalisation spellings and set-valued extras / dependency_groups included.", "5 C03", "A-PKG-EVAL (transcription of packaging's fold); atom-level agreement with packaging's _eval_op bounded only; finding D14",
+                  "name-normalisation spellings and set-valued extras / dependency_groups included.", "5 C03", "A-PKG-EVAL (transcription of packaging's fold and of _eval_op; Specifier(text).contains(item) uninterpreted, whether a text is a valid specifier uninterpreted); findings D14, D22 (pre-/post-release environment values)",
                   "contract-based deductive verification of the parse-tree fold (T-MARK, loop invariant, z3) + bounded comparison with packaging")
 CLAIMED["C17"] = ("other", "Mixed: (proof) the control structure of parse_version_specifier over abstract texts: '<empty>' gives the empty set; a text with '||' is parsed piecewise and returns exactly when every piece is accepted; "
                   "any other text returns exactly when packaging's SpecifierSet accepts it; in every other case the only exception is dep_logic's InvalidSpecifier (packaging's is translated); from_specifierset folds the clauses "
